@@ -43,7 +43,8 @@ def is_nan(x):
 
 
 def table(rng):
-    n = rng.choice([0, 1, 1, 2, 3, 4, 5, 6, 7])
+    # mostly small tables; one in eight is larger (9..40 rows): order / hashing effects only show beyond ~8 rows
+    n = rng.choice([0, 1, 1, 2, 3, 4, 5, 6, 7]) if rng.random() < 0.875 else rng.choice([9, 12, 17, 25, 40])
     k = rng.choice([1, 2, 2, 3])
     cols = rng.sample(NAMES, k)
     t = {}
